@@ -17,11 +17,9 @@ import (
 	"testing"
 
 	"github.com/XiaoMi/Gaea/models"
-	"github.com/XiaoMi/Gaea/mysql"
 	"github.com/XiaoMi/Gaea/parser"
 	"github.com/XiaoMi/Gaea/proxy/router"
 	"github.com/XiaoMi/Gaea/proxy/sequence"
-	"github.com/XiaoMi/Gaea/util"
 	kit "github.com/XiaoMi/Gaea/verifkit"
 )
 
@@ -308,80 +306,6 @@ type c04Result struct {
 	Unshard  bool // BuildPlan returned an UnshardPlan
 }
 
-// c04SessionPreCheck mirrors proxy/server.(*SessionExecutor).preBuildUnshardPlan
-// (executor_handle.go), which decides from the tokens alone whether a statement skips the
-// parser and is sent verbatim to the default slice. The decision functions it combines
-// (CheckUnshardBase/Insert/Update, HasShardTableToken, PreCreateUnshardPlan) are the real ones
-// of this package; only the short combination is repeated here because proxy/server cannot be
-// imported from proxy/plan. Not mirrored: the comment-statement and last_insert_id() shortcuts
-// (no generated statement starts with a comment or has a 14..16 byte second token) and the
-// "no shard rules at all" branch (every layout has rules).
-func c04SessionPreCheck(l *c04Layout, db, sql string) (Plan, bool) {
-	rt := l.cfg.RT
-	phyDBs := c04PhyDBs(l)
-	tokens := parser.Tokenize(sql)
-	if len(tokens) == 0 {
-		return nil, false
-	}
-	ruleDB := db
-	isUnshardPlan := true
-	tokenID, ok := mysql.ParseTokenMap[strings.ToLower(tokens[0])]
-	if !ok {
-		return nil, false
-	}
-	switch tokenID {
-	case mysql.TkIdSelect, mysql.TkIdDelete:
-		ruleDB, isUnshardPlan = CheckUnshardBase(tokenID, tokens, rt, db)
-	case mysql.TkIdReplace, mysql.TkIdInsert:
-		ruleDB, isUnshardPlan = CheckUnshardInsert(tokens, rt, db)
-	case mysql.TkIdUpdate:
-		ruleDB, isUnshardPlan = CheckUnshardUpdate(tokens, rt, db)
-	default:
-		return nil, false
-	}
-	if isUnshardPlan && HasShardTableToken(tokens, rt) {
-		isUnshardPlan = false
-	}
-	if isUnshardPlan {
-		if p, err := PreCreateUnshardPlan(sql, phyDBs, ruleDB); err == nil {
-			return p, true
-		}
-	}
-	return nil, false
-}
-
-// c04PhyDBs is Namespace.GetPhysicalDBs() of a namespace without default_phy_dbs: identity on allowed dbs.
-func c04PhyDBs(l *c04Layout) map[string]string {
-	m := map[string]string{}
-	for db := range l.cfg.NS.AllowedDBS {
-		m[db] = db
-	}
-	return m
-}
-
-// c04ExecUnshard runs the real UnshardPlan.ExecuteIn with the namespace's default slice in the
-// request context and maps the database like SessionExecutor.ExecuteSQL (GetDefaultPhyDB).
-func c04ExecUnshard(l *c04Layout, p Plan) ([]plSent, string) {
-	x := &plExec{}
-	ctx := util.NewRequestContext()
-	ctx.SetDefaultSlice(l.cfg.NS.DefaultSlice)
-	if _, err := p.ExecuteIn(ctx, x); err != nil {
-		return nil, "exec_error"
-	}
-	phy := c04PhyDBs(l)
-	for i := range x.Sent {
-		if x.Sent[i].DB == "" {
-			continue
-		}
-		d, ok := phy[x.Sent[i].DB]
-		if !ok {
-			return nil, "invalid_db"
-		}
-		x.Sent[i].DB = d
-	}
-	return x.Sent, ""
-}
-
 func c04Run(cs *c04Case) (res c04Result) {
 	l, err := c04GetLayout(cs.Layout)
 	if err != nil {
@@ -390,43 +314,25 @@ func c04Run(cs *c04Case) (res c04Result) {
 	}
 	sql := c04SQL(l, cs)
 	cs.SQL = sql
-	// the way a session obtains its plan (proxy/server getPlan): token pre-check first, parser + BuildPlan otherwise
-	var sent []plSent
-	if fp, fast := c04SessionPreCheck(l, l.DB, sql); fast {
-		res.Fast = true
-		var rej string
-		if sent, rej = c04ExecUnshard(l, fp); rej != "" {
-			res.Rejected = rej
-			return
-		}
-	} else {
-		pl := plBuild(l.cfg, l.DB, sql)
-		switch {
-		case pl.ParseErr != "":
-			res.GenBug = "generated text does not parse: " + pl.ParseErr + " :: " + sql
-			return
-		case pl.Panic != "":
-			res.Rejected = "panic"
-			return
-		case pl.Err != "":
-			res.Rejected = "error"
-			return
-		}
-		if up, ok := pl.Plan.(*UnshardPlan); ok {
-			// the planner itself did not recognise the global table
-			res.Unshard = true
-			var rej string
-			if sent, rej = c04ExecUnshard(l, up); rej != "" {
-				res.Rejected = rej
-				return
-			}
-		} else if pl.SQLs == nil {
-			res.GenBug = fmt.Sprintf("plan %T carries no statement map", pl.Plan)
-			return
-		} else {
-			sent = plFlatten(pl.SQLs)
-		}
+	// plBuild obtains the plan the way a session does: token pre-check first, parser + BuildPlan otherwise
+	pl := plBuild(l.cfg, l.DB, sql)
+	switch {
+	case pl.ParseErr != "":
+		res.GenBug = "generated text does not parse: " + pl.ParseErr + " :: " + sql
+		return
+	case pl.Panic != "":
+		res.Rejected = "panic"
+		return
+	case pl.Err != "":
+		res.Rejected = "error"
+		return
 	}
+	res.Fast, res.Unshard = pl.Fast, pl.Unshard && !pl.Fast
+	if pl.SQLs == nil {
+		res.GenBug = fmt.Sprintf("plan %T carries no statement map", pl.Plan)
+		return
+	}
+	sent := plFlatten(pl.SQLs)
 	res.Sent = sent
 	count := map[string]int{}
 	for _, s := range sent {
